@@ -360,7 +360,6 @@ Proof. intros H0 Hps Hdom mask.
   { unfold mask. rewrite (apply_bins_cons (A:=T)). unfold greedy_chain. constructor; auto.
     pose proof (chain_restores rs ps r0 p0 (seq 0 K) H0 (is_perm_id K) Hps Hdom) as H. rewrite Hid in H. exact H. }
   split; auto. unfold mask at 2. apply apply_bins_compose_const; auto.
-  - apply greedy_chain_is_perm.
-  - constructor; auto. Qed.
+  apply greedy_chain_is_perm. Qed.
 End Restore.
 End AlignersP.
